@@ -48,6 +48,10 @@ let eval_rpn (rpn : string) : q poly * special list =
           push (get (p_Sz_lists { qnum = Zpos XH; qden = XH } qadd qmul qsub qopp qzero qhalf ups downs));
           sp := ST (ups, downs) :: !sp
         | 'k' -> push (q_padd_const (q_of_string r) [])
+        | 'm' ->
+          let ops = List.filter_map (fun w -> if w = "" then None else
+                      Some ((w.[0] = 'c'), int_of_string (String.sub w 1 (String.length w - 1)))) (String.split_on_char '.' r) in
+          push (get (q_normalize ops { qnum = Zpos XH; qden = XH } []))
         | 's' -> let a = pop () in push (q_pscale (q_of_string r) a)
         | 'a' -> let a = pop () in push (q_padd_const (q_of_string r) a)
         | 'b' -> let a = pop () in push (q_psub_const (q_of_string r) a)
@@ -115,7 +119,7 @@ let () =
             Printf.printf "SPECIAL %d" kind;
             for k = 0 to (1 lsl m) - 1 do
               let st = state_of_nat m k in
-              Printf.printf " %d:%s/%s" k (string_of_q (fast st)) (string_of_q (diag poly st))
+              Printf.printf " %d:%s|%s" k (string_of_q (fast st)) (string_of_q (diag poly st))
             done;
             print_newline ()) sp;
           print_endline "END"
